@@ -157,6 +157,12 @@ pub fn args_env() -> (String, String, u64, Option<String>) {
     (prop, tier, seed, get("--replay"))
 }
 
+/// Root of the verification tree (default /verif; VERIF_ROOT is only used by scratch copies that
+/// run the checks against a scratch copy of the repository, e.g. the seeded-change matrix).
+pub fn verif_root() -> String {
+    std::env::var("VERIF_ROOT").unwrap_or_else(|_| "/verif".to_string())
+}
+
 pub fn install_panic_hook() {
     std::panic::set_hook(Box::new(|info| {
         let msg = if let Some(s) = info.payload().downcast_ref::<&str>() {
@@ -375,7 +381,7 @@ impl Runner {
         v.op.hash(&mut h);
         v.bits.hash(&mut h);
         v.args.hash(&mut h);
-        let dir = format!("/verif/replays/{}", self.prop);
+        let dir = format!("{}/replays/{}", verif_root(), self.prop);
         let _ = std::fs::create_dir_all(&dir);
         let opn: String = v.op.chars().map(|c| if c.is_ascii_alphanumeric() { c } else { '_' }).collect();
         format!("{dir}/{}-{}-{:016x}.json", opn, v.bits, h.finish())
@@ -473,10 +479,10 @@ impl Runner {
             "wall_s": (self.start.elapsed().as_secs_f64() * 1000.0).round() / 1000.0,
             "violations": violations,
         });
-        let _ = std::fs::create_dir_all("/verif/evidence/aux");
+        let _ = std::fs::create_dir_all(format!("{}/evidence/aux", verif_root()));
         let path = match std::env::var("VERIF_EVIDENCE_SUFFIX") {
-            Ok(s) if !s.is_empty() => format!("/verif/evidence/aux/{}{}.json", self.prop, s),
-            _ => format!("/verif/evidence/{}.json", self.prop),
+            Ok(s) if !s.is_empty() => format!("{}/evidence/aux/{}{}.json", verif_root(), self.prop, s),
+            _ => format!("{}/evidence/{}.json", verif_root(), self.prop),
         };
         std::fs::write(&path, serde_json::to_string_pretty(&ev).unwrap()).expect("harness: cannot write evidence");
     }
@@ -699,7 +705,7 @@ impl<'a> Local<'a> {
 // ---------------------------------------------------------------- known findings
 
 fn known_match(prop: &str, v: &Violation) -> Option<String> {
-    let txt = std::fs::read_to_string("/verif/known_findings.json").ok()?;
+    let txt = std::fs::read_to_string(format!("{}/known_findings.json", verif_root())).ok()?;
     let j: J = serde_json::from_str(&txt).ok()?;
     for f in j["findings"].as_array()? {
         if f["status"] != "known" || f["property"] != prop {
